@@ -467,7 +467,7 @@ func factsClientCfg() {
 func fParseTarget(g string) {
 	pf := fnOf(cl, "ParseConfig")
 	if pf == nil {
-		unrec(g, "parseNullGivesNilConfig", "ParseConfig not found")
+		unrec(g, "parseNullOutcome", "ParseConfig not found")
 		return
 	}
 	// the configuration variable: a named result or local of type *RawConfig, allocated with new(RawConfig) / &RawConfig{}
@@ -481,7 +481,7 @@ func fParseTarget(g string) {
 	}
 	um := allCalls(pf.Body, `^json\.Unmarshal$`)
 	if name == "" || len(um) != 1 || len(um[0].Args) != 2 {
-		unrec(g, "parseNullGivesNilConfig", "ParseConfig: expected a result `x *RawConfig` and one json.Unmarshal(content, target)")
+		unrec(g, "parseNullOutcome", "ParseConfig: expected a result `x *RawConfig` and one json.Unmarshal(content, target)")
 		return
 	}
 	alloc := assignRHS(pf, "^"+regexp.QuoteMeta(name)+"$")
@@ -498,16 +498,18 @@ func fParseTarget(g string) {
 		return true
 	})
 	target := show(um[0].Args[1])
+	strFact := func(v, src string) { emit(g, "parseNullOutcome", "String", leanStr(v), src) }
 	switch {
 	case !allocated:
-		unrec(g, "parseNullGivesNilConfig", "ParseConfig: "+name+" is not allocated with new(RawConfig) before json.Unmarshal")
+		unrec(g, "parseNullOutcome", "ParseConfig: "+name+" is not allocated with new(RawConfig) before json.Unmarshal")
 	case target == name:
-		boolFact(g, "parseNullGivesNilConfig", false, "ParseConfig: json.Unmarshal(content, "+target+") decodes into the allocated struct: a `null` document leaves an empty configuration")
+		strFact("empty-config", "ParseConfig: json.Unmarshal(content, "+target+") decodes into the allocated struct: a `null` document leaves an empty configuration")
+	case target == "&"+name && nilCheck:
+		strFact("error", "ParseConfig: json.Unmarshal(content, "+target+") decodes into the pointer variable (a `null` document sets it to nil) and a nil test with an error return follows")
 	case target == "&"+name:
-		boolFact(g, "parseNullGivesNilConfig", !nilCheck, "ParseConfig: json.Unmarshal(content, "+target+") decodes into the pointer variable: a `null` document sets it to nil without an error"+
-			map[bool]string{true: " (a nil check with an error return follows)", false: " and nothing checks it: ParseConfig returns (nil, nil)"}[nilCheck])
+		strFact("nil-config", "ParseConfig: json.Unmarshal(content, "+target+") decodes into the pointer variable: a `null` document sets it to nil without an error and nothing checks it: ParseConfig returns (nil, nil)")
 	default:
-		unrec(g, "parseNullGivesNilConfig", "ParseConfig: unexpected json.Unmarshal target "+target)
+		unrec(g, "parseNullOutcome", "ParseConfig: unexpected json.Unmarshal target "+target)
 	}
 	// cmd/ck-client uses the result without a nil test (field access right after the error check)
 	deref := false
